@@ -60,4 +60,35 @@ example : IsDouble 3 := ⟨3, 0, by norm_num, by norm_num, by norm_num, by norm_
 example : Clear IsDouble (1 / 2) (3 : Rat) (5 / 2) :=
   Or.inl ⟨1, -1, by norm_num, by norm_num, by norm_num, by norm_num⟩
 
+/-! ### dyadic grids: no margin condition at all -/
+
+/-- `x` is an integer multiple `m · 2^k` of the grid unit `2^k` with `|m| ≤ 2^52` (the generator's
+dyadic bases: unit `tol/64`, integer coordinates far below 2^52) -/
+def OnGrid (k : Int) (x : Rat) : Prop := ∃ m : Int, |m| ≤ 2 ^ 52 ∧ x = (m : Rat) * (2 : Rat) ^ k
+
+/-- the difference of two grid values is a double: computed exactly by float64 -/
+theorem isDouble_sub_of_onGrid (k : Int) (hk : -1074 ≤ k) (hk' : k ≤ 970) (a b : Rat)
+    (ha : OnGrid k a) (hb : OnGrid k b) : IsDouble (a - b) := by
+  obtain ⟨m, hm, rfl⟩ := ha
+  obtain ⟨n, hn, rfl⟩ := hb
+  refine ⟨m - n, k, ?_, hk, hk', ?_⟩
+  · have h1 := abs_le.mp hm
+    have h2 := abs_le.mp hn
+    rw [abs_le]
+    constructor <;> omega
+  · push_cast; ring
+
+/-- **On a dyadic grid the float64 code of all eight methods IS the exact model**: every coordinate
+of both operands an integer multiple (|m| ≤ 2^52) of one unit `2^k`, `-1074 ≤ k ≤ 970`, `tol` a
+double — no margin condition at all (this is the case of the generator's dyadic bases, 80 % of the
+generated pairs, from tol = 2^-900 to 2^900). -/
+theorem C15_float64_grid (k : Int) (hk : -1074 ≤ k) (hk' : k ≤ 970) (g h : RGeom) (e : Rat) (he : IsDouble e)
+    (hg : ∀ p ∈ ptsOf g, OnGrid k p.x ∧ OnGrid k p.y) (hh : ∀ q ∈ ptsOf h, OnGrid k q.x ∧ OnGrid k q.y) :
+    simC (fun a b => float64Similar a b e) g h = sim g e h :=
+  C15_float64_lift g h e he fun p hp q hq =>
+    ⟨Or.inl (isDouble_sub_of_onGrid k hk hk' _ _ (hg p hp).1 (hh q hq).1),
+     Or.inl (isDouble_sub_of_onGrid k hk hk' _ _ (hg p hp).2 (hh q hq).2)⟩
+
+example : OnGrid (-6) (3 / 64) := ⟨3, by norm_num, by norm_num⟩
+
 end GeomV.C15
